@@ -21,7 +21,7 @@ func c02UseNamespace(c *core.Ctx) {
 		return
 	}
 	cons := fname("pkg/context", "Context", "UseNamespace")
-	activeF := structField(c, "pkg/context", "Context", "activeNs")
+	activeF := c02ActiveNsField(c)
 	if f.Type.Params == nil || len(f.Type.Params.List) != 1 || len(f.Type.Params.List[0].Names) != 1 {
 		c.Undecide("R-C02-9", cons+"|signature", pos(c, f.Body), "unexpected signature")
 		return
@@ -49,6 +49,47 @@ func c02UseNamespace(c *core.Ctx) {
 		}
 		cst, ok := dflt.(*types.Const)
 		return ok && cst.Val().ExactString() == tv.Value.ExactString()
+	}
+	helperOK := map[types.Object]bool{}
+	mapsEmptyToDefault := func(call *ast.CallExpr) bool {
+		fo, ok := f.Callee(call).(*types.Func)
+		if !ok || fo.Pkg() != f.Pkg.Types {
+			return false
+		}
+		if v, done := helperOK[fo]; done {
+			return v
+		}
+		helperOK[fo] = false
+		hd := declOf(f.Pkg, fo)
+		if hd == nil || hd.Type.Params == nil || len(hd.Type.Params.List) != 1 || len(hd.Type.Params.List[0].Names) != 1 {
+			return false
+		}
+		h := flow.NewFunc(f.Pkg, hd)
+		hp := hd.Type.Params.List[0].Names[0]
+		hk := "eq:" + h.Render(hp) + `==""`
+		hres := analyze(c, h, flow.Config{NoHavoc: true})
+		if hres == nil {
+			return false
+		}
+		good, n := true, 0
+		for _, ex := range hres.Exits {
+			if ex.Kind != flow.ExitReturn || ex.Return == nil || len(ex.Return.Results) != 1 {
+				good = false
+				continue
+			}
+			n++
+			r := ast.Unparen(ex.Return.Results[0])
+			switch ex.State.Get(hk) {
+			case flow.True:
+				good = good && isDefault(r)
+			case flow.False:
+				good = good && c02Obj(h, r) == h.Info.Defs[hp] && c02NewDefs(h).n[h.Info.Defs[hp]] == 1
+			default:
+				good = false
+			}
+		}
+		helperOK[fo] = good && n > 0
+		return helperOK[fo]
 	}
 	res := analyze(c, f, flow.Config{NoHavoc: true, OnNode: func(st *flow.State, n ast.Node) {
 		as, ok := n.(*ast.AssignStmt)
@@ -82,6 +123,22 @@ func c02UseNamespace(c *core.Ctx) {
 		st.Set("ev:ns:param", flow.Unknown)
 		st.Set("ev:ns:default", flow.Unknown)
 		r := ast.Unparen(as.Rhs[0])
+		// `ctx.field = namespaceOrDefault(ns)`: a same-package helper that maps "" to the default and
+		// returns its argument otherwise (verified on all its paths)
+		if call, ok := r.(*ast.CallExpr); ok && len(call.Args) == 1 && isHolder(call.Args[0]) && mapsEmptyToDefault(call) {
+			switch {
+			case st.Is("ev:param:other", flow.True):
+			case st.Is("ev:param:defaulted", flow.True):
+				st.Set("ev:ns:default", flow.True)
+			case st.Is(emptyKey, flow.True):
+				st.Set("ev:ns:default", flow.True)
+			case st.Is(emptyKey, flow.False):
+				st.Set("ev:ns:param", flow.True)
+			default:
+				st.Set("ev:ns:mapped", flow.True) // both cases handled by the helper
+			}
+			return
+		}
 		if isHolder(r) {
 			// the parameter (or its copy) — unless it was overwritten before
 			switch {
@@ -131,6 +188,9 @@ func c02UseNamespace(c *core.Ctx) {
 				bad, why = st, "a non-empty namespace argument is not stored as the active namespace"
 			}
 		default:
+			if st.Is("ev:ns:mapped", flow.True) {
+				break // stored through a verified ""→default mapping helper
+			}
 			if !st.Is("ev:ns:param", flow.True) && !st.Is("ev:ns:default", flow.True) {
 				bad, why = st, "the active namespace is not set on this path"
 			} else if st.Is("ev:ns:param", flow.True) {
